@@ -880,9 +880,23 @@ int
 ldb_lock_file(const char *filename, ldb_filelock_t **lock) {
   ldb_fileid_t id;
   struct stat st;
-  int fd, rc;
+  int fd = -1;
+  int rc;
 
   ldb_mutex_lock(&file_mutex);
+
+  /* Closing any descriptor of a file releases all fcntl locks this
+     process holds on it. A file this process has already locked must
+     therefore be recognized before it is opened (and closed) again. */
+  if (stat(filename, &st) == 0) {
+    id.dev = st.st_dev;
+    id.ino = st.st_ino;
+
+    if (rb_set_has(&file_set, &id)) {
+      errno = ENOLCK;
+      goto fail;
+    }
+  }
 
   fd = ldb_open(filename, O_RDWR | O_CREAT, 0644);
 
